@@ -613,7 +613,7 @@ func init() {
 		Assumptions: []string{"keys presented are 32 bytes (the property's domain)", "worker address space is capped; an out-of-memory death counts only if it reproduces"},
 		NumCases: func(tier string) int {
 			if tier == "thorough" {
-				return 40000
+				return 24000
 			}
 			return 1600
 		},
